@@ -54,6 +54,16 @@ func (e *Eng) typeID(t types.Type) int {
 	return id
 }
 
+func (e *Eng) pseudoTypeID(name string) int {
+	k := "pseudo:" + name
+	if id, ok := e.typeIDs[k]; ok {
+		return id
+	}
+	id := len(e.typeIDs) + 1
+	e.typeIDs[k] = id
+	return id
+}
+
 func (e *Eng) strID(s string) int {
 	if s == "" {
 		return 0
